@@ -152,6 +152,29 @@ CHECKS = {
         note="The simulator grants only names in the upstream request; Seed URLs unique per region; a live one-shot URL is not registered again; a URL extending several "
              "live grants may resolve to any of them; plain asset caps may resolve with region/session None as documented; llsd XML, mitmproxy state serialisation "
              "and in-memory queue stand-ins trusted."),
+    "C09": dict(
+        category="exploration", design_ref="DESIGN.md §4 C09",
+        technique="bounded-exhaustive enumeration over every registry entry x context value x {object, pod} with forked per-time-zone workers; round-trip / fixed-point / literal-evaluation oracle",
+        text="Every entry of SUBFIELD_SERIALIZERS (197; iterated, not listed) x every context value of the sibling field it reads x {object, pod}: the complete 8/16-bit "
+             "wire domain is swept, 32/64-bit domains use a boundary / single-bit / all-but-one-bit / members+-1 alphabet; payloads are built one leaf at a time from "
+             "the serializer's own template with all subsets of option-switching flag bits; 'accepted payloads' add single-byte substitution, truncation, extension "
+             "and cross-context feeding (fixed point after one pass); date entries run under 4 process time zones across every minute within +-2 h of 12 DST "
+             "transitions plus sub-second raws; Block cache invalidation and pod literal evaluation are checked per entry.",
+        note="Wire types from message_template.msg through the independent parser; 32/64-bit domains by alphabet; UNSERIALIZABLE means 'no pretty form'; floats NaN-free; "
+             "9 registrations naming variables that do not exist in the template are out of scope; value generation uses the library's spec objects and adapter grids; "
+             "a round-trip oracle cannot see an encoder that loses information consistently with its decoder (C13 covers the compressed-update template independently)."),
+    "C11": dict(
+        category="exploration", design_ref="DESIGN.md §4 C11",
+        technique="bounded-exhaustive enumeration of decoded generator messages x torture text values x {beautify} x replacement tables; text-level enumeration of "
+                  "eval-operator rewrites and expression payloads for the safe-mode clause with three independent evaluation detectors",
+        text="Every message the template-driven generator produces for all 481 templates (value rows, block-count variants, all 256 flag bytes on basis templates), with "
+             "byte-variable alphabets extended by a text-layer torture list, is decoded from its datagram, printed with to_human_string (plain and beautified, four "
+             "replacement tables, both directions), parsed with from_human_string(safe=True), serialized and compared with the datagram body. All reachable subfield "
+             "serializers are exercised in beautified form (dense integer sets; context x fill x length payloads). Safe mode: 5 eval-operator rewrites and 46 expression "
+             "payloads under '=' and '=|' at every variable position of every template's text, with a sentinel, counted builtins.eval/exec and an import side-effect probe.",
+        note="Floats finite (the literal syntax has no inf/nan); zerocoded bodies above the decoder's cap out of domain; packet id, acks and extra are comments in the format "
+             "and copied before comparison; [[NAME]] replacement lookups count as caller data; each-choice values in multi-variable messages; open known finding: a "
+             "Variable block with count 0 has no text form."),
 }
 
 PENDING_REASON = "check not built yet (build in progress; will be claimed once its harness exists)"
